@@ -34,7 +34,10 @@
 (* Deviation the code has (Dev_* = TRUE is the as-is model):                *)
 (*   Dev_AdoptClientSecurity  server adopts policy and mode from the OPN    *)
 (*                            (open known finding, C30)                     *)
-(* Deviation the code had until commit a460b2f (now FALSE for good):        *)
+(* Deviations the code had (now FALSE for good, kept as non-vacuity demos):  *)
+(*   Dev_TokenKeyLimits       until 76fe2a1: EncryptUserPassword applied    *)
+(*                            the key size limits of the user-token policy  *)
+(*                            to the client's channel key                   *)
 (*   Dev_IgnoreSigFailure     CreateSession logs a failed check and returns *)
 (*                            (nil, nil); ActivateSession dereferences nil  *)
 (* Demo-only deviations (never TRUE for the real code; non-vacuity):        *)
@@ -42,12 +45,12 @@
 (***************************************************************************)
 EXTENDS Naturals, Sequences, FiniteSets, TLC, Json
 
-CONSTANTS Dev_AdoptClientSecurity, Dev_IgnoreSigFailure,
+CONSTANTS Dev_AdoptClientSecurity, Dev_IgnoreSigFailure, Dev_TokenKeyLimits,
           Dev_AdvertiseExtra, Dev_DropPolicy, Dev_WrongTokenPolicy,
           ConfigSet,      \* which server configurations: "all" "quick" "thorough" "interopq" "interop" "one"
           Scripted,       \* TRUE: adversarial server script (C22)
           Intents,        \* subset of {"endpoint", "raw"}: what kinds of clients are explored
-          DiagKeys,       \* TRUE: endpoint clients use the same key size as the server only
+          DiagKeys,       \* TRUE: endpoint clients use key sizes near the server's only (NearKeys)
           Emit            \* "none" | "opn" | "interop" | "sig"
 
 ---------------------------------------------------------------------------
@@ -139,13 +142,19 @@ CliDiscover ==
   /\ eps' = adv
   /\ UNCHANGED <<cfg, up, adv, cli, chan, chanSec, sig, sess, srvSess, state, node, ops>>
 
+\* quick tier: the client key is the server's size or one across each boundary of the policy tables
+\* (1024 | 2048 | > 2048), instead of every allowed size
+NearKeys(sk) == CASE sk = 1024 -> {1024, 2048}
+                  [] sk = 2048 -> {1024, 2048, 4096}
+                  [] sk = 3072 -> {3072}
+                  [] sk = 4096 -> {2048, 4096}
 \* SelectEndpoint(policy, mode) + SecurityFromEndpoint(ep, tokenType) + key pair within the policy's limits
 CliChooseEndpoint ==
   /\ "endpoint" \in Intents /\ cli.intent = "none" /\ eps # {}
   /\ \E e \in eps, k \in KeySizes, t \in AuthTypes :
        /\ KeyOK(e.pol, k)
        /\ (e.pol = "None" => k = 2048)                     \* no client key is used with None
-       /\ (DiagKeys /\ e.pol # "None" => k = cfg.skey)
+       /\ (DiagKeys /\ e.pol # "None" => k \in NearKeys(cfg.skey))
        /\ \E tk \in e.toks : tk.type = t
        /\ cli' = [intent |-> "endpoint", pol |-> e.pol, mode |-> e.mode, ckey |-> k, tok |-> t]
   /\ state' = "Connecting"
@@ -199,9 +208,15 @@ CliVerifySig ==
 
 \* client.go ActivateSession (client signature, user token secret) + server ActivateSession,
 \* then the namespace read that ends Connect
+\* the username secret is encrypted with the policy of a username token policy of the endpoint (the client
+\* takes the first one advertised; which one that is, is not specified)
+TokenKeyClash == /\ Dev_TokenKeyLimits /\ cli.tok = "user"
+                 /\ \E t \in TokensOf(cfg) : t.type = "user" /\ ~KeyOK(t.pol, cli.ckey)
 Activate ==
   /\ chan = "open" /\ sess \in {"created", "nil"}
-  /\ \/ /\ sess = "created"
+  /\ \/ /\ sess = "created" /\ TokenKeyClash          \* EncryptUserPassword fails: Connect closes and returns the error
+        /\ sess' = "error" /\ state' = "Closed" /\ UNCHANGED srvSess
+     \/ /\ sess = "created"
         /\ sess' = "activated" /\ srvSess' = "activated" /\ state' = "Connected"
      \/ /\ sess = "nil"                             \* s.serverCertificate on a nil *Session
         /\ sess' = "panic" /\ UNCHANGED <<srvSess, state>>
